@@ -19,6 +19,8 @@ type Expr struct {
 	X []*Expr `json:"x,omitempty"`
 	// P: render this node in parentheses although not required (layout variety)
 	P bool `json:"p,omitempty"`
+	// Z: spell a non-negative int literal with this many leading zeros (it stays decimal)
+	Z int `json:"z,omitempty"`
 }
 
 const (
